@@ -43,13 +43,13 @@ def main():
             continue
         for sub in sorted(os.listdir(dd)):
             pth = os.path.join(dd, sub, "patch.diff")
-            if os.path.exists(pth):
+            if os.path.exists(pth) and os.path.exists(os.path.join(dd, sub, "notes.md")):
                 items.append(("%s/%s" % (d, sub), pth))
             elif sub == "patch.diff":
                 items.append((d, os.path.join(dd, sub)))
     with ThreadPoolExecutor(8) as ex:
         results = dict(ex.map(one, enumerate(items)))
-    json.dump(results, open(os.path.join(VERIF, "seeded", "MATRIX.json"), "w"), indent=1, sort_keys=True)
+    json.dump(results, open(os.path.join(root, "MATRIX.json"), "w"), indent=1, sort_keys=True)
     for name in sorted(results):
         r = results[name]
         if "error" in r:
